@@ -7,6 +7,34 @@
 //! Nothing in here changes the behaviour of the crate: every function is a pure
 //! view of state that the crate maintains anyway.
 
+/// What the wait-for graph stores per asking actor. Written against this small trait so that the
+/// accessors below do not depend on the exact value type of the graph.
+#[cfg(feature = "deadlock-detection")]
+pub trait EdgeValue {
+    fn of(target: crate::Identity) -> Self;
+    fn target_id(&self) -> u64;
+}
+
+#[cfg(feature = "deadlock-detection")]
+impl EdgeValue for crate::Identity {
+    fn of(target: crate::Identity) -> Self {
+        target
+    }
+    fn target_id(&self) -> u64 {
+        self.id
+    }
+}
+
+#[cfg(feature = "deadlock-detection")]
+impl EdgeValue for (crate::Identity, u64) {
+    fn of(target: crate::Identity) -> Self {
+        (target, 0)
+    }
+    fn target_id(&self) -> u64 {
+        self.0.id
+    }
+}
+
 /// Snapshot of the wait-for graph as `(asking actor id, asked actor id)` pairs, sorted.
 #[cfg(feature = "deadlock-detection")]
 pub fn wait_for_edges() -> Vec<(u64, u64)> {
@@ -16,7 +44,7 @@ pub fn wait_for_edges() -> Vec<(u64, u64)> {
     };
     let mut edges: Vec<(u64, u64)> = graph
         .iter()
-        .map(|(from, to)| (*from, to.id))
+        .map(|(from, to)| (*from, to.target_id()))
         .collect();
     edges.sort_unstable();
     edges
@@ -32,9 +60,9 @@ pub fn wait_for_lock_poisoned() -> bool {
 /// `(from, to)` pairs (a later pair with the same `from` replaces an earlier one).
 #[cfg(feature = "deadlock-detection")]
 pub fn has_path(edges: &[(u64, u64)], from: u64, to: u64) -> bool {
-    let graph: std::collections::HashMap<u64, crate::Identity> = edges
+    let graph: std::collections::HashMap<u64, _> = edges
         .iter()
-        .map(|(f, t)| (*f, crate::Identity::new(*t, "verif")))
+        .map(|(f, t)| (*f, EdgeValue::of(crate::Identity::new(*t, "verif"))))
         .collect();
     crate::has_path(&graph, from, to)
 }
